@@ -668,6 +668,16 @@ def _correspondence(ctx):
             # single edits
             k = rng.randint(0, len(s))
             cases.append((s[:k] + rng.choice(list(";=,:+-0123456789 \nMOXZ(") + ["BYDAY=", "FREQ="]) + s[k + rng.randint(0, 1):], {}))
+    # single RRULE lines (the fast path hands them to _parse_rfc_rrule unchanged): as printed, without the RRULE: prefix, respelled, edited
+    for r, s, _ in rules:
+        ln = s.split("\n")[-1]
+        cases.append((rng.choice([ln, ln[6:]]), {}))
+        v = spell(rng, ln, 3)
+        if len(v.split()) == 1:
+            cases.append((v, {}))
+        if rng.random() < 0.3:
+            k = rng.randint(0, len(ln))
+            cases.append((ln[:k] + rng.choice(list(";=,:+-0(MO") + ["BYDAY=", "=", ";;"]) + ln[k + rng.randint(0, 1):], {}))
     # DTSTART / EXDATE lines with TZID parameters in every spelling (the name table, case, parameter order, folding)
     for r, s, _ in rules:
         if rng.random() < 0.5:
@@ -688,7 +698,7 @@ def _correspondence(ctx):
         if rng.random() < 0.7:
             cases += rng.sample(path_variants(rng, s), 2)
     cases += [(m, {}) for m in MALFORMED] + [(m, {"forceset": True}) for m in MALFORMED[:12]] + [(m, {"unfold": True}) for m in MALFORMED[:12]]
-    reqs, impl = [], []
+    reqs, impl, gen_line = [], [], []
     for text, opts in cases:
         if not all(ord(c) < 128 for c in text):
             continue
@@ -700,6 +710,23 @@ def _correspondence(ctx):
         except Timeout:
             ctx.count("impl_timeout"); continue
         reqs.append("rrs.parse %s %s" % (flags, hexs(text))); impl.append(res)
+        if flags == "0000000" and len(text.split()) == 1 and text.strip() == text and (":" not in text or text.upper().startswith("RRULE:")):
+            gen_line.append(("rrsgen.line %s" % hexs(text.upper()), res))      # the single-line fast path IS _parse_rfc_rrule(lines[0])
+    # the source translation of _parse_rfc_rrule / the _handle_* dispatch against the recorded constructor call
+    for (q, res), g in zip(gen_line, ctx.driver([q for q, _ in gen_line])):
+        if isinstance(res, tuple):
+            continue
+        if isinstance(res, str) and res.startswith("err"):
+            if g.startswith("ok") and res == "err ValueError":
+                continue                      # rejected downstream of the translated function (rrule(**kwargs), parser.parse)
+            if g != res.replace("err ParserError", "err ValueError"):
+                ctx.mismatch("rrsgen.line (translated _parse_rfc_rrule)", q, res, g)
+            continue
+        if " o" in g or "[o" in g or ",o" in g or "o+" in g:
+            continue
+        if canon_impl(res, g) != g:
+            ctx.mismatch("rrsgen.line (translated _parse_rfc_rrule)", q, canon_impl(res, g), g)
+    ctx.traces += len(gen_line); ctx.count("gen_rule_line_cases", len(gen_line))
     got = ctx.driver(reqs)
     for q, res, g in zip(reqs, impl, got):
         e = canon_impl(res, g)
